@@ -24,6 +24,7 @@ PROGRAMS = {
     "imr_word": "cdfa00000000cdfa008f00130d",          # MVW (FA),0000 ; NOP NOP ; MVW (FA),8F00 ; NOP ; JR start   (the mask is rewritten by a word store that begins one byte below it)
     "imr_mti": "ccfb820000ccfb8300130b",            # MV (FB),82 ; NOP NOP ; MV (FB),83 ; NOP ; JR start   (only the MTI mask bit is toggled; STI stays enabled, keyboard masked)
     "imr_unmask": "00" * 36 + "79fb01" + "00" * 6 + "1306",   # 36 x NOP ; OR (FB),01 ; NOP sled (loops in itself): MTI is unmasked once, late, and stays unmasked
+    "fhi": "08b7283e00001307",                      # MV A,B7 ; PUSHU A ; POPU F ; NOP NOP ; JR start   (all eight bits of F are loaded from the stack; C16)
     "isr_clear": "ccfc00001306",
     "ir": "fe001304",
     "clr_halt": "ccfc00de1306",                    # MV (FC),0 ; HALT ; JR start   (a polled, masked request is acknowledged, then the CPU halts)
@@ -407,7 +408,7 @@ def _shard(args):
 
 
 def combos_for(impl, thorough, seed):
-    progs = [p for p in PROGRAMS if p not in ("xram", "rst", "romw", "wait_scaled", "imr_mti", "imr_unmask")]      # xram only adds a RAM expansion overlay for C16
+    progs = [p for p in PROGRAMS if p not in ("xram", "rst", "romw", "wait_scaled", "imr_mti", "imr_unmask", "fhi")]      # xram only adds a RAM expansion overlay for C16
     hands = list(HANDLERS)
     if impl == "rust":
         imrs = IMRS if thorough else [0x00, 0x81, 0x84, 0x88, 0x8F, 0x0F]
